@@ -525,9 +525,18 @@ def check(run):
     t1 = open(os.path.join(run.scratch, "consts_expand.tsv")).read()
     open(os.path.join(run.scratch, "consts_dstruth.tsv"), "a").write("".join(l + "\n" for l in t1.splitlines() if l.startswith("cmdline_")))
     ok, failed, log = run.coq_props(["Properties_C12.v"])
+    coqchk = "not run (quick tier)"
+    if ok and run.tier == "thorough":
+        from vlib.core import sh, THEORIES
+        p = sh(["timeout", "900", "coqchk", "-silent", "-o", "-Q", THEORIES, "Snoopy", "-Q", run.gen, "Gen", "-Q", os.path.join(run.scratch, "props"), "Props",
+                "Props.Properties_C12"], check=False, timeout=960)
+        m = re.search(r"\* Axioms:\s*(.*?)\n\s*\n", p.stdout, re.S)
+        coqchk = "exit %d, axioms: %s" % (p.returncode, (m.group(1).strip() if m else "?"))
+        if p.returncode != 0 or not m or m.group(1).strip() != "<none>":
+            ok, failed, log = False, "coqchk", p.stdout[-2000:]
     exe = build_impl(run)
     rng = run.rng
-    n = 34 if run.tier == "quick" else 400
+    n = 34 if run.tier == "quick" else 1500
     corp = corpus_cases()
     gen = [recipe_line(s) for s in fixed_states()] + [recipe_line(gen_state(rng, k, run.tier)) for k in range(n)]
     # the clock past 2038 (interposed): the int cast of timestamp.c
@@ -576,7 +585,7 @@ def check(run):
         "distribution": {"states": len(lines), "corpus_cases": len(corp), "state_dimensions": dist, "compared_per_source": stats["compared"], "no_model_opinion": stats["unmodelled"],
                          "model_lines": nmodel, "violations_found": nv,
                          "proved_table": TABLE + ["env_all", "cmdline"], "own_model_with_parse_theorems": ["cgroup", "rpname"], "correspondence_only": CORR_ONLY, "neither": NEITHER,
-                         "translator_recognised": recog},
+                         "translator_recognised": recog, "coqchk": coqchk},
         "traces_validated_against_impl": sum(stats["compared"].values()),
     })
     return run.finish(level="proof",
